@@ -333,6 +333,22 @@ m("o31-writev-eats-into-the-callers-batch", "C02", "C02/", (CU,
 				pos = i
 				break"""))
 
+m("o32-eventloop-register-checks-the-address-first", "C19", "answer/EventLoop", (EL,
+  """func (el *eventloop) Register(ctx context.Context, addr net.Addr) (<-chan RegisteredResult, error) {
+	if el.engine.isShutdown() {
+		return nil, errorx.ErrEngineInShutdown
+	}
+	if addr == nil {
+		return nil, errorx.ErrInvalidNetworkAddress
+	}""",
+  """func (el *eventloop) Register(ctx context.Context, addr net.Addr) (<-chan RegisteredResult, error) {
+	if addr == nil {
+		return nil, errorx.ErrInvalidNetworkAddress
+	}
+	if el.engine.isShutdown() {
+		return nil, errorx.ErrEngineInShutdown
+	}"""))
+
 
 def main():
     os.makedirs(OUT, exist_ok=True)
